@@ -92,6 +92,16 @@ Lemma table_guards :
   staking_guards_flat = true /\ crosschain_guards_flat = true.
 Proof. repeat split. Qed.
 
+(* nothing between the EVM and the keepers intercepts a panic: no defer / recover() in Contract.Run nor in any
+   method's Run. A keeper panic therefore unwinds through ExecuteNativeAction and the interpreter out of
+   ApplyMessage, and the SDK drops the whole transaction (M_Frames: status Panic). Were it intercepted, the writes
+   made before the panic would be neither restored nor journalled. *)
+Lemma table_panics_abort :
+  staking_run_recovers = false /\ crosschain_run_recovers = false /\
+  staking_pkg_recover_calls = 0 /\ crosschain_pkg_recover_calls = 0 /\
+  forallb (fun m => negb (pm_defers m)) methods = true.
+Proof. repeat split. Qed.
+
 (* the acting identity is contract.Caller(); evm.Origin only ever flows into event constructors *)
 Lemma table_identities :
   forallb (fun m => pm_readonly m ||
